@@ -303,7 +303,8 @@ D2 = [("STANDARD", -300, -300, "BBB", [datetime(1970, 1, 1)])]
 DEFS = {"d1": 60, "d2": -300}
 TZIDS = ("Custom/A", "/Custom/A", "Custom/B")
 POSITIONS = ("before", "after", "between")
-OPS = [("parse", tzid, dname, pos) for tzid in TZIDS for dname in DEFS for pos in POSITIONS] + [("switch",)]
+OPS = [("parse", tzid, dname, pos) for tzid in TZIDS for dname in DEFS for pos in POSITIONS] + [("switch",)] + [
+    ("lookup", tzid) for tzid in TZIDS]  # asking the provider for an id (known or not yet known) changes nothing
 
 
 def cal_text(tzid, dname, pos):
@@ -333,6 +334,17 @@ def run_history(case):
             env.use_provider(provider)
             cache = {}
             trans += 1
+            continue
+        if op[0] == "lookup":
+            trans += 1
+            try:
+                tz = tzp.timezone(op[1])
+                off = None if tz is None else int(datetime(2024, 6, 1, 12, tzinfo=UTC).astimezone(tz).utcoffset().total_seconds() // 60)
+            except Exception as e:  # noqa: BLE001
+                off = f"raised {type(e).__name__}"
+            obs_all.append(("lookup", off))
+            if last and off != cache.get(op[1].strip("/")):
+                fails.append(fail("lookup-differs-from-what-was-defined", case, cache.get(op[1].strip("/")), off))
             continue
         _, tzid, dname, pos = op
         text = cal_text(tzid, dname, pos)
@@ -424,7 +436,7 @@ def run(ctx):
                 "{1,2,-1} x 2 month pairs x {SU,FR} x {no bound, UNTIL, COUNT} x TZNAME {given, absent, identical}" +
                 (" (quick: every 2nd of the rule product)" if ctx.quick else "") + ", each converted under both providers and evaluated "
                 f"at every onset -1s/0/+1s up to 2037 and mid-points; (B) BFS to depth {depth} over {len(OPS)} operations "
-                "(parse of a calendar with TZID x definition x VTIMEZONE position; provider switch). non-trivial = >= 2 observances / "
+                "(parse of a calendar with TZID x definition x VTIMEZONE position; provider switch; provider lookup of an id). non-trivial = >= 2 observances / "
                 "history of length >= 2.")
     ctx.bounds = {"offsets_min": STD_OFFSETS, "deltas_min": DELTAS, "history_depth": depth, "operations": len(OPS)}
     ctx.assumptions += ["only consistent definitions (TZOFFSETFROM = offset in force before the onset, onsets >= 48h apart, DTSTART "
